@@ -2,7 +2,7 @@
 From Coq Require Import List NArith ZArith Bool Arith.
 From Coq Require Import Strings.Byte Strings.String.
 Require Import CU.model.Prim CU.model.Types CU.model.Unicode CU.model.Codec CU.model.Dates CU.model.Iso CU.gen.GenConfig.
-Require Import CU.model.Block CU.model.Vbs CU.model.Ipm CU.spec.IsoSpec.
+Require Import CU.model.Block CU.model.Vbs CU.model.Ipm CU.model.Tools CU.spec.IsoSpec.
 Require Import CU.extract.Text.
 Import ListNotations.
 
@@ -97,6 +97,13 @@ Definition pr_irend (x : list dict * rend) : text :=
   pr_dicts (fst x) ++ T "|" ++
   match snd x with End => T "END" | ErrData n ctx => T "ERR:" ++ pr_nat n ++ T ":" ++ pr_bytes ctx end.
 
+(* CSV rows: rows separated by "/", cells by ","; an empty cell is "_"; "-" is no rows; a cell the model cannot print is "?" *)
+Definition p_rows (t : text) : option (list (list str)) :=
+  if is_dash t then Some [] else all_some (map (fun r => all_some (map p_str_e (split ","%byte r))) (split "/"%byte t)).
+Definition pr_orows (l : list (list (option str))) : text :=
+  match l with [] => T "-"
+  | _ => join (T "/") (map (fun r => join (T ",") (map (fun c => match c with Some s => pr_str_e s | None => T "?" end) r)) l) end.
+
 Definition run_iso (op : text) (args : list text) : option text :=
   if text_eqb op (T "dumps") then
     match args with [cf; cd; hb; d] => Some (opt (p_cfg cf) (fun cf => opt (p_codec cd) (fun cd => opt (p_bool hb) (fun hb =>
@@ -113,6 +120,23 @@ Definition run_iso (op : text) (args : list text) : option text :=
   else if text_eqb op (T "wf_msg") then        (* spec: is the message in the domain of C01? (also wf_cfg) *)
     match args with [cf; cd; d] => Some (opt (p_cfg cf) (fun cf => opt (p_codec cd) (fun cd => opt (p_dict d) (fun d =>
         T "OK " ++ pr_bool (wf_cfgb cf) ++ pr_bool (codec_okb cd) ++ pr_bool (wf_msgb cf cd d))))) | _ => Some bad_input end
+  else if text_eqb op (T "ipm_convert") then   (* mode 0: mci_ipm_encode; 1: mideu convert — both read without PDS processors *)
+    match args with [md; ca; cb; fa; fb; f] => Some (opt (p_bool md) (fun md => opt (p_codec ca) (fun ca => opt (p_codec cb) (fun cb =>
+        opt (p_bool fa) (fun fa => opt (p_bool fb) (fun fb => opt (p_bytes f) (fun f =>
+        pr_result pr_bytes (convert 1012 max_vbs_record_length
+            (cfg_nopds packaged_bit_config) packaged_bit_config ca cb fa fb f)))))))) | _ => Some bad_input end
+  else if text_eqb op (T "pconvert") then
+    match args with [ca; cb; fa; fb; f] => Some (opt (p_codec ca) (fun ca => opt (p_codec cb) (fun cb =>
+        opt (p_bool fa) (fun fa => opt (p_bool fb) (fun fb => opt (p_bytes f) (fun f =>
+        pr_result pr_bytes (pconvert 1012 max_vbs_record_length ca cb fa fb f))))))) | _ => Some bad_input end
+  else if text_eqb op (T "csv_to_ipm") then
+    match args with [cd; bl; cols; rows] => Some (opt (p_codec cd) (fun cd => opt (p_bool bl) (fun bl =>
+        opt (p_list p_key cols) (fun cols => opt (p_rows rows) (fun rows =>
+        pr_result pr_bytes (csv_to_ipm 1012 packaged_bit_config cd bl cols rows)))))) | _ => Some bad_input end
+  else if text_eqb op (T "ipm_to_rows") then
+    match args with [cd; bl; cols; f] => Some (opt (p_codec cd) (fun cd => opt (p_bool bl) (fun bl =>
+        opt (p_list p_key cols) (fun cols => opt (p_bytes f) (fun f =>
+        pr_result pr_orows (ipm_to_rows 1012 max_vbs_record_length packaged_bit_config cd bl cols f)))))) | _ => Some bad_input end
   else if text_eqb op (T "ipm_read") then
     match args with [cf; cd; bl; f] => Some (opt (p_cfg cf) (fun cf => opt (p_codec cd) (fun cd => opt (p_bool bl) (fun bl =>
         opt (p_bytes f) (fun f => pr_result pr_irend (iread_all 1012 max_vbs_record_length cf cd f bl)))))) | _ => Some bad_input end
